@@ -149,6 +149,18 @@ def gen_positions(frags):
     return res, text
 
 
+def py_nosplit(frags):
+    prev_cr = False
+    for f in frags:
+        t = f[0]
+        if not t:
+            continue
+        if prev_cr and t[0] == '\n':
+            return False
+        prev_cr = t[-1] == '\r'
+    return True
+
+
 def py_wf(frags):
     both = all((f[1] is None) == (f[2] is None) for f in frags)
     prev_cr = False
@@ -488,6 +500,53 @@ def classes_tie(ctx, drv):
     ctx.obligation('tie:splitlines-crlf-convention', ok2, 'tie')
 
 
+def parts_tie(ctx, drv):
+    """direct tie of `Names.update` and of the `Bookkeeper` attribute protocol (stage by stage)"""
+    from calmjs.parse import sourcemap
+    rng = ctx.sub_rng('parts')
+    bad = None
+    for _ in range(ctx.n(300, 3000)):
+        seq = [rng.choice([None, 'a', 'b', 'c', 'dd', '', 'é']) for _ in range(rng.randint(0, 12))]
+        n = sourcemap.Names()
+        out = []
+        for x in seq:
+            r = n.update(x)
+            out.append('N' if r is None else str(r))
+        want = ' '.join(('OK ' + ' '.join(out) + ' | ' + ' '.join(proto.enc_str(k) for k in n)).split())
+        got = ' '.join(drv.ask('names ' + ' '.join('N' if x is None else proto.enc_str(x) for x in seq)).split())
+        ctx.case(('names', tuple(seq)), nontrivial=bool(seq))
+        if got != want:
+            bad = ('names', seq, got, want)
+            break
+    ctx.obligation('tie:Names.update = Model Names.update', bad is None, 'tie', bad or '')
+    bad = None
+    for _ in range(ctx.n(300, 3000)):
+        init = rng.randint(-5, 50)
+        ops = [(rng.choice('sr'), rng.randint(-20, 200)) for _ in range(rng.randint(0, 10))]
+        bk = sourcemap.Bookkeeper()
+        bk.x = init
+        out = []
+        for k, v in ops:
+            if k == 's':
+                bk.x = v
+            else:
+                bk._x = v
+            out.append('%d.%d' % (bk.x, bk._x))
+        want = ' '.join(('OK ' + ' '.join(out)).split())
+        got = ' '.join(drv.ask('cell %d %s' % (init, ' '.join('%s%d' % o for o in ops))).split())
+        ctx.case(('cell', init, tuple(ops)), nontrivial=bool(ops))
+        if got != want:
+            bad = ('cell', init, ops, got, want)
+            break
+    ctx.obligation('tie:Bookkeeper set/_set/get/_get = Model Cell', bad is None, 'tie', bad or '')
+    # default_book(): the three attributes exist with the values the model starts from
+    b = sourcemap.default_book()
+    k = b.keeper
+    ok = (k._sink_column, k.sink_column, k._source_line, k.source_line, k._source_column, k.source_column,
+          b.written_len, b.original_len) == (0, 0, 1, 0, 1, 0, 0, 0)
+    ctx.obligation('tie:default_book = Model defaultBook', ok, 'tie')
+
+
 def run(ctx):
     import logging
     logging.getLogger('calmjs.parse.sourcemap').setLevel(logging.CRITICAL)
@@ -503,6 +562,7 @@ def run(ctx):
         'theorems are stated on the raw mappings (before encode_mappings); composition with the VLQ '
         'string codec is C10 (write_WFMappings supplies its hypothesis)')
     classes_tie(ctx, drv)
+    parts_tie(ctx, drv)
 
     tie_diffs = []
     judge_fails = []
@@ -511,19 +571,21 @@ def run(ctx):
 
     def one(label, frags, must_hold):
         wf = py_wf(frags)
+        nosplit = py_nosplit(frags)
         for normalize in (False, True):
             key = (tuple((f[0], f[1], f[2], f[3], 'NI' if f[4] is NotImplemented else f[4]) for f in frags), normalize)
             ctx.case(key, nontrivial=any(f[0] for f in frags))
             ok, a, b = tie_one(drv, frags, normalize)
             if not ok:
                 tie_diffs.append((label, frags, normalize, a, b))
-            if wf or must_hold:
+            if nosplit or must_hold:
                 n_judged[0] += 1
                 fl = judge(ctx, frags, normalize, drv)
                 if fl:
                     judge_fails.append((label, frags, normalize, fl))
         ctx.bump('stream:' + label.split('/')[0])
         ctx.bump('wf:%s' % wf)
+        ctx.bump('nosplit:%s' % nosplit)
         for f in frags:
             kind = ('explicit' if (f[1] and f[2]) else 'inferred' if (f[1] == 0 and f[2] == 0)
                     else 'unmapped' if (f[1] is None and f[2] is None) else 'mixed')
@@ -534,9 +596,9 @@ def run(ctx):
                 ctx.bump('frag:multi-line-text')
         # helpers of the spec vs python
         lw = drv.ask('wf ' + frags_req(frags))
-        if lw != 'OK %d' % (1 if wf else 0):
+        if lw != 'OK %d %d' % (1 if wf else 0, 1 if nosplit else 0):
             helper_bad.append(('wf', frag_list_json(frags), lw, wf))
-        if wf:
+        if nosplit:
             pos, text = gen_positions(frags)
             gp = drv.ask('genpos ' + ' '.join(proto.enc_str(f[0]) for f in frags))
             want = 'OK ' + ' '.join('%d.%d' % p for p in pos)
@@ -545,6 +607,18 @@ def run(ctx):
             lc = drv.ask('linecount ' + proto.enc_str(text))
             if lc != 'OK %d' % len(NL.split(text)):
                 helper_bad.append(('linecount', text, lc))
+
+    # the hypotheses of the theorems are necessary on the implementation too (Props/C09.lean examples)
+    split_crlf = [('a\r', None, None, None, None), ('\n', None, None, None, None), ('b', 1, 1, None, None)]
+    empty_text = [('', 1, 1, None, None)]
+    w1 = judge(ctx, split_crlf, False, drv)
+    w2 = ['explicitly positioned empty text emits no segment'] if impl_write(empty_text, False)[0] == [[]] else []
+    ctx.note('hypothesis witnesses on the implementation: split CRLF -> %s ; empty explicit text -> %s' % (
+        w1[:2] or 'property holds', w2[:1] or 'property holds'))
+    ctx.obligation('hypotheses NoSplitCRLF / non-empty text are needed on the implementation as in the model', bool(w1) and bool(w2), 'tie',
+                   'judge on the two witnesses of Props/C09.lean: %r / %r' % (w1[:2], w2[:1]))
+    tie_one_ok = [tie_one(drv, w, nz)[0] for w in (split_crlf, empty_text) for nz in (False, True)]
+    ctx.obligation('tie:S5 on the hypothesis witnesses', all(tie_one_ok), 'tie')
 
     # corpus of past disagreements first
     for e in corpus.extra('C09'):
@@ -589,7 +663,7 @@ def run(ctx):
     # ---- verdict ----------------------------------------------------------
     reported = 0
     for label, frags, normalize, fl in judge_fails[:3]:
-        small = shrink(frags, lambda fr: (py_wf(fr) or label.startswith('real')) and judge(ctx, fr, normalize, drv))
+        small = shrink(frags, lambda fr: (py_nosplit(fr) or label.startswith('real')) and judge(ctx, fr, normalize, drv))
         fl2 = judge(ctx, small, normalize, drv) or fl
         ctx.violation('C09 fails on %s stream (normalize=%s): %s' % (label, normalize, fl2[0]),
                       dict(kind='judge', frags=frag_list_json(small), normalize=normalize, failures=fl2[:5],
@@ -611,7 +685,7 @@ def run(ctx):
             post = synth_stream(rng, True)[:rng.randint(0, 3)]
             cands.append(pre + list(small) + post)
         for c in cands:
-            if not py_wf(c):
+            if not py_nosplit(c):
                 continue
             for nz in (normalize, not normalize):
                 fl = judge(ctx, c, nz, drv)
@@ -622,7 +696,7 @@ def run(ctx):
                 break
         if found and not reported:
             c, nz, fl = found
-            c = shrink(c, lambda fr: py_wf(fr) and judge(ctx, fr, nz, drv))
+            c = shrink(c, lambda fr: py_nosplit(fr) and judge(ctx, fr, nz, drv))
             ctx.violation('C09 fails (found from a model/implementation difference), normalize=%s: %s' % (
                 nz, (judge(ctx, c, nz, drv) or fl)[0]),
                 dict(kind='judge', frags=frag_list_json(c), normalize=nz, failures=fl[:5]), True)
@@ -657,7 +731,7 @@ def replay(ctx, path):
     print('normalize      :', normalize)
     print('implementation :', render_result(r))
     print('model          :', drv.ask('write %d %s' % (1 if normalize else 0, frags_req(frags))))
-    print('WFStream       :', py_wf(frags))
+    print('WFStream       :', py_wf(frags), ' NoSplitCRLF:', py_nosplit(frags))
     fl = judge(ctx, frags, normalize, drv)
     for f in fl:
         print('judge FAIL     :', f)
